@@ -39,8 +39,24 @@ Check(m, st2, e) ==
     \cup (IF e.a = "bad" /\ e.ret \notin {"none", "error"} THEN {"MalformedNotDiscarded"} ELSE {})
     \cup (IF e.a # "send" /\ e.ret # "panic" /\ RealTable(e) # ModelTable(st2) THEN {"TableMismatch"} ELSE {})
 
+\* the largest message the sender accepts (MaxSegIdx + 1 segments at the real constants) is too big to be replayed datagram by datagram in
+\* the model: the harness sends it (sendBig: number of datagrams, first and last header) and feeds all datagrams in order (deliverAll:
+\* how many messages were handed up, at which datagram, and whether the bytes are the message). What the model says about it is decided
+\* by TLC on the scaled configuration Segment_wrap*.cfg (AllDeliveredIfNoLoss); here the real constants are bound.
+BigCheck(m, e) ==
+    LET len == m.st.lens[e.n]  cnt == MaxIdx(len) + 1 IN
+    IF e.a = "sendBig"
+    THEN (IF Oversize(len) THEN {"OversizeAccepted"} ELSE {})
+         \cup (IF e.ret # "ok" THEN {"SendFailed"} ELSE {})
+         \cup (IF e.count # cnt \/ e.first[1] # MaxIdx(len) \/ e.first[2] # 0 \/ e.last[2] # MaxIdx(len) \/ e.last[3] # PayLen(len, MaxIdx(len))
+                  \/ e.first[4] # 1 \/ e.last[4] # 1 THEN {"SendSplit"} ELSE {})
+    ELSE (IF e.ret = "panic" THEN {"Crash"} ELSE {})
+         \cup (IF e.ret # "panic" /\ ~(e.handed = 1 /\ e.at = cnt /\ e.exact = 1) THEN {"RecvResult"} ELSE {})
 MonStep(m, e) ==
     IF e.ev # "SegOp" THEN m
+    ELSE IF e.a \in {"sendBig", "deliverAll"}
+    THEN [m EXCEPT !.bad = @ \cup BigCheck(m, e), !.steps = @ + 1, !.sends = @ + (IF e.a = "sendBig" THEN 1 ELSE 0),
+                   !.completes = @ + (IF e.a = "deliverAll" /\ e.handed = 1 THEN 1 ELSE 0)]
     ELSE LET st2 == Apply(m.st, OpOf(e))
          IN [m EXCEPT !.st = st2,
                       !.bad = @ \cup Check(m, st2, e),
